@@ -426,6 +426,12 @@ def rcptsOf (envOf : Nat → List Nat) (fs : FS) (id : Nat) : List Nat :=
   | some p => Store.delSeq p.2.delivered (envOf p.1)
   | none => []
 
+/-- The attempt counter `get` shows for a recovered message. -/
+def attOf (fs : FS) (id : Nat) : Nat :=
+  match recover fs id with
+  | some p => p.2.attempts
+  | none => 0
+
 theorem delSeq_sublist (idxs : List Nat) (l : List Nat) : (Store.delSeq idxs l).Sublist l := by
   induction idxs generalizing l with
   | nil => simp [Store.delSeq]
@@ -434,7 +440,8 @@ theorem delSeq_sublist (idxs : List Nat) (l : List Nat) : (Store.delSeq idxs l).
     exact (ih (l.eraseIdx i)).trans (List.eraseIdx_sublist l i)
 
 /-- **After the crash nobody the message still lists is lost**: under the hypotheses of `acknowledged_message_survives`, start the
-    composed queue machine of C01 on what a fresh `DiskStorage` recovers (ids, due times, recipients not yet marked delivered). In
+    composed queue machine of C01 on what a fresh `DiskStorage` recovers (ids, due times, recipients not yet marked delivered,
+    attempt counters). In
     every state the restarted queue reaches — any interleaving of loading announcements, scheduler turns, attempts with any relay
     answers, retries, removals, new enqueues — every such recipient of the acknowledged message is counted exactly once among
     delivered / failed for good / outstanding, and when outstanding the message is stored and has a next step. -/
@@ -443,7 +450,7 @@ theorem restarted_queue_never_loses (fs0 : FS) (k c1 c2 id e ts : Nat) (later : 
     (envOf : Nat → List Nat) (henv : ∀ e', (envOf e').Nodup) (fb : Bool) (nn : Nat → Bool) :
     let fs := crashAt (execAll (exec fs0 ⟨.write id e ts, k, c1, c2⟩) later) last.k last.c1 last.c2 last.op n
     (∃ m, recover fs id = some (e, m) ∧ rcptsOf envOf fs id = Store.delSeq m.delivered (envOf e)) ∧
-    ∀ q, Reach fb (start (loadOf fs ids) (rcptsOf envOf fs) nn) q → ∀ x ∈ rcptsOf envOf fs id,
+    ∀ q, Reach fb (startAt (loadOf fs ids) (rcptsOf envOf fs) nn (attOf fs)) q → ∀ x ∈ rcptsOf envOf fs id,
       (q.delivered id).count x + ((q.failed id).map Prod.fst).count x + (outstanding q.s.rem q id).count x = 1 ∧
       (x ∈ q.delivered id ∨
        (∃ rp, (x, rp) ∈ q.failed id ∧ ((fb && q.nonNull id) = true → ∃ b ∈ q.bounces id, b.reply = rp ∧ x ∈ b.rcpts)) ∨
@@ -462,23 +469,17 @@ theorem restarted_queue_never_loses (fs0 : FS) (k c1 c2 id e ts : Nat) (later : 
     · exact (delSeq_sublist _ _).nodup (henv _)
     · simp
   have hmem : id ∈ (loadOf fs ids).map (·.1) := List.mem_map.mpr ⟨(id, m.ts), mem_loadOf hm hid, rfl⟩
-  have horig0 : (start (loadOf fs ids) (rcptsOf envOf fs) nn).orig id = some (rcptsOf envOf fs id) := by
+  have horig0 : (startAt (loadOf fs ids) (rcptsOf envOf fs) nn (attOf fs)).orig id = some (rcptsOf envOf fs id) := by
     have hc : ((loadOf fs ids).map (·.1)).contains id = true := List.contains_iff_mem.mpr hmem
     show (if ((loadOf fs ids).map (·.1)).contains id then some (rcptsOf envOf fs id) else none) = _
     rw [if_pos hc]
   -- what a message was accepted with never changes for an id the queue knows from the start … via the trace lemma
   obtain ⟨ls, hT⟩ := hr.trace
   have horig : q.orig id = some (rcptsOf envOf fs id) :=
-    (orig_of_start hT (inv_start fb _ _ nn hpre hrc) horig0 (Or.inl (by
-      show id ∈ Sched.sIds (start (loadOf fs ids) (rcptsOf envOf fs) nn).s
-      simpa [start, Sched.sIds] using hmem))).1
+    (orig_of_start hT (inv_startAt fb _ _ nn _ hpre hrc) horig0 (Or.inl (by
+      show id ∈ Sched.sIds (startAt (loadOf fs ids) (rcptsOf envOf fs) nn (attOf fs)).s
+      simpa [startAt, Sched.sIds] using hmem))).1
   exact ⟨C01.one_disposition hpre hrc hr id _ horig x hx, C01.accepted_never_lost hpre hrc hr id _ horig x hx⟩
-
-/-- The attempt counter `get` shows for a recovered message. -/
-def attOf (fs : FS) (id : Nat) : Nat :=
-  match recover fs id with
-  | some p => p.2.attempts
-  | none => 0
 
 /-- **The restarted queue continues the retry schedule** (C04 ∘ C01): started on the recovered ids, due times, recipients and
     attempt counters (`QM.startAt`), the hand-offs of a recovered message carry the recovered counter, then counter + 1, … — and by
